@@ -321,45 +321,81 @@ func checkC13(c *Ctx, p *Prog, r *Result) {
 	// (4) RFC 8152 fixed-width encoding
 	if rf := get("fdo/cose.RFC8152Signer.Sign"); rf != nil {
 		r.Functions["fdo/cose.RFC8152Signer.Sign"] = true
-		r.rule("C13.rfc8152-encoding", "RFC8152Signer.Sign allocates 2n bytes (n from the curve order) and writes R into [:n] and S into [n:] with FillBytes")
+		r.rule("C13.rfc8152-encoding", "RFC8152Signer.Sign (or the unexported helper it hands the two integers to) allocates 2n bytes (n from the curve order) and writes R into [:n] and S into [n:] with FillBytes")
 		r.floor("C13.rfc8152-encoding", 1)
-		m := p.matcher(rf)
 		var buf *ssa.MakeSlice
 		var fills []string
 		okFill := true
-		for _, b := range rf.Blocks {
-			for _, in := range b.Instrs {
-				if ms, ok := in.(*ssa.MakeSlice); ok {
-					if bo, ok := ms.Len.(*ssa.BinOp); ok && bo.Op == token.MUL && (isConstInt(bo.Y, 2) || isConstInt(bo.X, 2)) && m.Prov(ms.Len).Has("call:math/big.Int.BitLen") {
-						buf = ms
+		for _, fn := range c13Region(p, rf) {
+			m := p.matcher(fn)
+			nOK := func(v ssa.Value) bool { return v != nil && m.Prov(v).HasX("call:math/big.Int.BitLen") }
+			var fbuf *ssa.MakeSlice
+			for _, b := range fn.Blocks {
+				for _, in := range b.Instrs {
+					if ms, ok := in.(*ssa.MakeSlice); ok {
+						if bo, ok := ms.Len.(*ssa.BinOp); ok && bo.Op == token.MUL && (isConstInt(bo.Y, 2) || isConstInt(bo.X, 2)) && nOK(ms.Len) {
+							fbuf = ms
+						}
 					}
 				}
 			}
-		}
-		for _, b := range rf.Blocks {
-			for _, in := range b.Instrs {
-				call, ok := in.(*ssa.Call)
-				if !ok || p.calleeOf(call.Common()).Name != "math/big.Int.FillBytes" {
-					continue
+			if fbuf == nil {
+				continue
+			}
+			buf = fbuf
+			// which integer a receiver is: a load of field R / S, or a parameter
+			// that the single caller fills from such a load
+			recvName := func(v ssa.Value) string {
+				if f := fieldOfLoad(v); f != "" {
+					return f[strings.LastIndex(f, ".")+1:]
 				}
-				args := allArgs(call)
-				sl, ok := args[1].(*ssa.Slice)
-				if !ok || buf == nil || sl.X != ssa.Value(buf) {
-					okFill = false
-					continue
+				pr, ok := v.(*ssa.Parameter)
+				if !ok {
+					return "?"
 				}
-				recv := fieldOfLoad(args[0])
-				half := ""
-				nOK := func(v ssa.Value) bool { return v != nil && m.Prov(v).Has("call:math/big.Int.BitLen") }
-				switch {
-				case sl.Low == nil && nOK(sl.High):
-					half = "[:n]"
-				case sl.High == nil && nOK(sl.Low):
-					half = "[n:]"
-				default:
-					okFill = false
+				pi := -1
+				for k, q := range fn.Params {
+					if q == pr {
+						pi = k
+					}
 				}
-				fills = append(fills, recv[strings.LastIndex(recv, ".")+1:]+half)
+				for _, ed := range p.CallGraph().in[fn] {
+					cs, ok := ed.Site.(ssa.CallInstruction)
+					if !ok || ed.Kind != "static" {
+						continue
+					}
+					ops := callOperands(cs.Common())
+					if pi < len(ops) {
+						if f := fieldOfLoad(ops[pi]); f != "" {
+							return f[strings.LastIndex(f, ".")+1:]
+						}
+					}
+				}
+				return "?"
+			}
+			for _, b := range fn.Blocks {
+				for _, in := range b.Instrs {
+					call, ok := in.(*ssa.Call)
+					if !ok || p.calleeOf(call.Common()).Name != "math/big.Int.FillBytes" {
+						continue
+					}
+					args := allArgs(call)
+					sl, ok := args[1].(*ssa.Slice)
+					if !ok || sl.X != ssa.Value(buf) {
+						okFill = false
+						continue
+					}
+					half := ""
+					switch {
+					case sl.Low == nil && nOK(sl.High):
+						half = "[:n]"
+					case sl.High == nil && nOK(sl.Low):
+						half = "[n:]"
+					default:
+						okFill = false
+					}
+					fills = append(fills, recvName(args[0])+half)
+				}
 			}
 		}
 		sort.Strings(fills)
